@@ -186,6 +186,51 @@ def regenerate_consts():
     return False
 
 
+def regenerate_tables():
+    """translate the lookup tables declared inside /repo/src/**/*.cpp into Generated/Tables.lean (vlib/tables.py)"""
+    from . import tables as tb
+    fp, d = build_dir()
+    os.makedirs(d, exist_ok=True)
+    found = tb.find_tables(REPO)
+    out_path = os.path.join(d, "tables.out")
+    with Lock(os.path.join(BUILD, "locks", fp + "-tables.lock")):
+        if os.path.exists(out_path):
+            printed = open(out_path).read()
+        else:
+            printed = ""
+            if found:
+                src = os.path.join(d, "tables_gen.cpp")
+                with open(src, "w") as fh:
+                    fh.write(tb.cpp_program(found))
+                exe = os.path.join(d, "tables_gen")
+                rc, out = sh(["g++"] + BASE_FLAGS + ["-O0"] + include_flags() + [src, "-o", exe])
+                if rc != 0:
+                    # one table that no longer compiles in isolation must not hide the others: retry one by one
+                    for t in found:
+                        with open(src, "w") as fh:
+                            fh.write(tb.cpp_program([t]))
+                        rc1, _ = sh(["g++"] + BASE_FLAGS + ["-O0"] + include_flags() + [src, "-o", exe])
+                        if rc1 == 0:
+                            rc2, o2 = sh([exe])
+                            if rc2 == 0:
+                                printed += o2
+                else:
+                    rc, printed = sh([exe])
+                    if rc != 0:
+                        printed = ""
+            with open(out_path, "w") as fh:
+                fh.write(printed)
+    text = tb.lean_module(printed, found)
+    target = os.path.join(LEAN, "Tpp", "Generated", "Tables.lean")
+    with Lock(os.path.join(BUILD, "locks", "lake.lock")):
+        old = open(target).read() if os.path.exists(target) else None
+        if old != text:
+            with open(target, "w") as fh:
+                fh.write(text)
+            return True
+    return False
+
+
 def lake_build(targets, timeout=3600):
     """returns (ok, output)"""
     with Lock(os.path.join(BUILD, "locks", "lake.lock")):
